@@ -1,7 +1,16 @@
 -- Root of the library: everything that `lake build` must re-check.
 import Fosite.Model.Scope
+import Fosite.Model.Step
 import Fosite.Spec.Scope
+import Fosite.Spec.Monitor
 import Fosite.Proofs.Scope
+import Fosite.Proofs.WP
+import Fosite.Proofs.StepLemmas
+import Fosite.Proofs.Redeem
+import Fosite.Proofs.Inv
+import Fosite.Proofs.History
+import Fosite.Props.C01
 import Fosite.Props.C12
 import Fosite.Driver.Pure
+import Fosite.Driver.Hist
 import Fosite.Audit
